@@ -112,7 +112,43 @@ def call(fname, method, fx, fwd=None, bck=None):
     raise ValueError(fname)
 
 
-def custom_callable(fname, probe, fx):
+class _CallableInstance(object):
+    """a method given as an object with __call__ (neither a function nor a class)"""
+
+    def __init__(self, m):
+        self._m = m
+
+    def __call__(self, *a, **kw):
+        return self._m(*a, **kw)
+
+    def run(self, *a, **kw):
+        return self._m(*a, **kw)
+
+
+def as_kind(m, ck):
+    """the same caller-supplied method as each kind of Python callable (Dispatch.tla CallableKinds)"""
+    import functools
+    if ck == "function":
+        return m
+    if ck == "lambda":
+        return lambda *a, **kw: m(*a, **kw)
+    if ck == "partial":
+        def m_tagged(_tag, *a, **kw):
+            return m(*a, **kw)
+        return functools.partial(m_tagged, "tag")
+    if ck == "instance":
+        return _CallableInstance(m)
+    if ck == "boundmethod":
+        return _CallableInstance(m).run
+    raise ValueError(ck)
+
+
+def custom_callable(fname, probe, fx, ck="function"):
+    m, refname, opts = _custom_callable(fname, probe, fx)
+    return as_kind(m, ck), refname, opts
+
+
+def _custom_callable(fname, probe, fx):
     """a caller-supplied method for functional fname: records what it sees; closed form where one exists (no autograd graph),
     otherwise a wrapper around the built-in. Returns (callable, reference built-in name, reference options)"""
     from xitorch._impls.integrate.ivp.explicit_rk import rk4_ivp
@@ -408,23 +444,26 @@ def who_runs_where(ctx, fx):
 def run(ctx):
     thorough = ctx.tier == "thorough"
     allf = RawTla("[g \\in Functionals |-> TRUE]")
-    t, cf = tlcmod.gen_mc(ctx.work, "Dispatch", "MC_Dispatch", dict(LowerFirst=allf),
+    t, cf = tlcmod.gen_mc(ctx.work, "Dispatch", "MC_Dispatch", dict(LowerFirst=allf, AnyCallable=True),
                           invariants=["CaseInsensitive", "UnknownRejected", "CallableAccepted", "DefaultIsBuiltIn"])
     dot = os.path.join(ctx.work, "disp.dot")
     ctx.model_check(t, cf, workers=4, dump_dot=dot, label="dispatch table", timeout=300)
     nodes, inits, edges = tlcmod.parse_dot(dot)
     os.remove(dot)
-    t2, cf2 = tlcmod.gen_mc(ctx.work, "Dispatch", "MC_Dispatch_dev", dict(LowerFirst=RawTla('[g \\in Functionals |-> g \\notin {"solve", "minimize"}]')),
+    t2, cf2 = tlcmod.gen_mc(ctx.work, "Dispatch", "MC_Dispatch_dev", dict(LowerFirst=RawTla('[g \\in Functionals |-> g \\notin {"solve", "minimize"}]'), AnyCallable=True),
                             invariants=["CaseInsensitive", "UnknownRejected", "CallableAccepted", "DefaultIsBuiltIn"])
     ctx.expect_violation(t2, cf2, inv="CaseInsensitive", label="deviation LowerFirst", workers=4, timeout=300)
+    t3, cf3 = tlcmod.gen_mc(ctx.work, "Dispatch", "MC_Dispatch_dev_callable", dict(LowerFirst=allf, AnyCallable=False),
+                            invariants=["CaseInsensitive", "UnknownRejected", "CallableAccepted", "DefaultIsBuiltIn"])
+    ctx.expect_violation(t3, cf3, inv="CallableAccepted", label="deviation AnyCallable", workers=4, timeout=300)
     fx = fixtures(ctx.seed)
     nrows = 0
     with warnings.catch_warnings():
         warnings.simplefilter("ignore")
-        for st in sorted(nodes.values(), key=lambda s: (s["f"], s["cls"], s["nm"])):
-            f, cls, nm, outcome = st["f"], st["cls"], st["nm"], st["outcome"]
+        for st in sorted(nodes.values(), key=lambda s: (s["f"], s["cls"], s["nm"], s["ck"])):
+            f, cls, nm, outcome, ck = st["f"], st["cls"], st["nm"], st["outcome"], st["ck"]
             nrows += 1
-            ctx.case(key=(f, cls, nm), sample={"functional": f, "class": cls, "name": nm, "spec_outcome": outcome} if nrows % 17 == 1 else None)
+            ctx.case(key=(f, cls, nm, ck), sample={"functional": f, "class": cls, "name": nm, "spec_outcome": outcome} if nrows % 17 == 1 else None)
             probe = Probe()
             if cls == "none":
                 marg, opts = None, dict(NEEDS.get((f, outcome), {}))
@@ -437,7 +476,7 @@ def run(ctx):
             elif cls == "noncallable":
                 marg, opts = 3.5, {}
             else:
-                marg, refname, opts = custom_callable(f, probe, fx)
+                marg, refname, opts = custom_callable(f, probe, fx, ck)
                 opts = dict(opts)
             got = None
             try:
@@ -460,8 +499,8 @@ def run(ctx):
                     # (scipy_gmres resolves correctly but the installed SciPy no longer accepts its `tol` keyword: environment, not dispatch)
                     why = "raised %s" % got
             if why:
-                ctx.violation("dispatch/%s/%s%s" % (f, cls, "/early-name" if cls == "mixedcase" else ""),
-                              "%s(method=%r) [%s %s]: %s" % (f, marg if not callable(marg) else "<callable>", cls, nm, why), {"f": f, "cls": cls, "nm": nm})
+                ctx.violation("dispatch/%s/%s%s" % (f, cls, "/early-name" if cls == "mixedcase" else "/" + ck if cls == "callable" else ""),
+                              "%s(method=%r) [%s %s]: %s" % (f, marg if not callable(marg) else "<callable: %s>" % ck, cls, nm, why), {"f": f, "cls": cls, "nm": nm, "ck": ck})
                 continue
             if cls == "callable":
                 # (1) documented arguments, options, gradient mode, (2) options do not leak, (3) gradients equal the built-in's
@@ -474,7 +513,7 @@ def run(ctx):
                 if f in IMPLICIT and c0["grad"]:
                     ctx.violation("dispatch/%s/callable-grad-enabled" % f, "%s ran the supplied method with gradient recording enabled" % f, {"f": f})
                 probe2 = Probe()
-                m2, refname, ropts = custom_callable(f, probe2, fx)
+                m2, refname, ropts = custom_callable(f, probe2, fx, ck)
                 o2 = dict(ropts)
                 o2["myopt"] = 17
                 try:
@@ -488,10 +527,10 @@ def run(ctx):
                     ctx.violation("dispatch/%s/callable-options" % f, "%s with extra option raised %s: %s" % (f, type(e).__name__, str(e)[:120]), {"f": f})
                 # gradients
                 leaves = [fx[k] for k in LEAVES[f]]
-                outc = call(f, custom_callable(f, Probe(), fx)[0], fx, fwd=dict(ropts))
+                outc = call(f, custom_callable(f, Probe(), fx, ck)[0], fx, fwd=dict(ropts))
                 outr = call(f, refname, fx, fwd=dict(NEEDS.get((f, refname), {}), **{k: v for k, v in ropts.items() if k not in ("custom_step",)}) if f != "mcquad" else dict(ropts))
                 nrows += 1
-                ctx.case(key=(f, "callable-vs", refname))
+                ctx.case(key=(f, "callable-vs", refname, ck))
                 tol = 1e-7
                 if not torch.allclose(outc, outr, atol=tol, rtol=tol):
                     ctx.violation("dispatch/%s/callable-value" % f, "%s: custom callable result differs from %s by %.2e" % (f, refname, float((outc - outr).abs().max())), {"f": f})
